@@ -883,6 +883,13 @@ func genOps(r, r2 *rand.Rand, t *Tree, v *env, nops int, now0 int64) []Op {
 				emit(Op{Kind: "headers", Peer: pid, Now: nowOK(), Nodes: append([]int{k.ID}, nodeIDs(t.path(fi.fork, fi.bTip))...)})
 			}
 		}
+		{
+			// the part of B that only TIES with what it would displace,
+			// followed by a header that does not build on it: the LAST
+			// link of the message is broken
+			bp := t.path(fi.fork, fi.bTip)
+			emit(Op{Kind: "headers", Peer: pid, Now: nowOK(), Nodes: append(nodeIDs(bp[:len(bp)-1]), fi.aExt.ID)})
+		}
 		// B: one header longer
 		emit(Op{Kind: "headers", Peer: pid, Now: nowOK(), Nodes: nodeIDs(t.path(fi.fork, fi.bTip))})
 		if v.r4.Intn(2) == 0 {
@@ -964,6 +971,12 @@ func genOps(r, r2 *rand.Rand, t *Tree, v *env, nops int, now0 int64) []Op {
 		order := [][]*Node{t.path(ri.base, ri.tie), t.path(ri.base, ri.light)}
 		if v.r3.Intn(2) == 0 {
 			order[0], order[1] = order[1], order[0]
+		}
+		if v.r3.Intn(2) == 0 {
+			// the equal-work branch with one more header at the end that
+			// does NOT build on it (valid proof of work, another
+			// branch's tip): the LAST link of the message is broken
+			emit(Op{Kind: "headers", Peer: 2, Now: nowOK(), Nodes: append(nodeIDs(t.path(ri.base, ri.tie)), ri.heavy.ID)})
 		}
 		for _, br := range order {
 			emit(Op{Kind: "headers", Peer: 2, Now: nowOK(), Nodes: nodeIDs(br)})
@@ -1599,7 +1612,7 @@ func main() {
 	}
 	rep.Evaluations = n
 	rep.DistinctNontrivial = len(distinct)
-	rep.Rule = "histories on the real blockManager handlers over real header stores: a random block tree (main chain 8-30, up to 4 forks incl. work ties and longer branches, single-rule corruptions: pow, bits, time-old, time-new, version) under random parameters (retarget interval 3-8, no-retarget / min-difficulty / BIP94 flags, 0-3 checkpoints, in-memory window 2..10000) revealed by 1-4 peers in chunks, duplicates, overlaps, unconnected batches, with inv, peer arrivals/departures, filter-header batches; scenario histories from a separate PRNG stream: (15%) two checkpoints closer together than one headers message with a valid branch leaving the main chain right after the first one, ONE message from the sync peer through both checkpoint heights while the tip is below the first; (-prop C19, 45%) main chain synced, filter headers committed in batches of >= 3 up to the tip, then a longer valid branch forking >= 2 blocks below the tip, then batches on the new branch; histories with restarts from a third PRNG stream (30%): a restart builds a NEW blockManager (newBlockManager through the verif hook) over the SAME stores, re-installs the notification plumbing and forgets all peers, which have to connect again; (12%) scripted: main chain synced under no-retargeting, filter headers committed, restart, then the new sync peer reveals an equal-work and a lighter branch forking >= 2 blocks below the stored tip (below the whole in-memory window: refused) and a heavier one (adopted); (18%) a restart right before a peer reveals a fork below the stored tip, or at a random point; scenario histories from a fourth PRNG stream: (10%) checkpoint fork under no-retargeting: the client follows a side branch whose tip is exactly ONE BELOW a checkpoint when the heavier main chain through the checkpoint is revealed (handed over by peer departure, restart, or a second peer), or its tip is exactly ON the checkpoint when a heavier branch forking below it is revealed (refused), then a heavier branch forking exactly AT the reached checkpoint (adopted); (10%) flip-flop on one running store: A synced, top of A sent again, heavier B adopted, then A extended by 2-3 headers comes back (adopted), from the same or another peer; (8%) two checkpoints closer together than one message, the client on a side branch below the first: ONE competing message from the fork point through both checkpoint heights that matches the first and contradicts the second (invalid: chain unchanged), then the control matching both; in flip-flop histories and the random stream also messages whose first header (stored, or a valid child of the stored tip) is not the parent of the second while the rest is linked; (15%) a checkpoint above the tip and a single-rule-invalid header (time-old / bits with a valid proof of work for the wrong bits / version / time-new / pow) in EXTENSION position below it, alone or as the suffix of a batch with a valid prefix; (10%) retargeting at a difficulty above the minimum with one period far shorter than timespan/4 and one far longer than timespan*4: at both retarget heights the header computed WITHOUT the clamp (refused, in extension and in reorg position) and the clamped one (accepted); (8%) the batch reaching a checkpoint is lost to a failing BlockHeaders.WriteHeaders, then a branch connecting to the stored tip with a different header at the checkpoint height; (15%) the k-th WriteHeaders call (k = 1, 2) of random headers messages fails (a wrapper around the block header store; operation OHeadersF); a restart also closes and re-opens both header stores; with -prop C19 every operation runs against an unbuffered notification channel and NotificationsSinceHeight is probed while the handler is blocked on event k and after it returned (histogram backlog_probes*), also with the n-th FetchHeaderByHeight of the request made to fail through a wrapper of the block header store (backlog_requests_with_read_fault); non-trivial = the history contains a rollback/reorganisation (disconnect events) and committed filter headers (connect events); distinct = distinct op-kind signature"
+	rep.Rule = "histories on the real blockManager handlers over real header stores: a random block tree (main chain 8-30, up to 4 forks incl. work ties and longer branches, single-rule corruptions: pow, bits, time-old, time-new, version) under random parameters (retarget interval 3-8, no-retarget / min-difficulty / BIP94 flags, 0-3 checkpoints, in-memory window 2..10000) revealed by 1-4 peers in chunks, duplicates, overlaps, unconnected batches, with inv, peer arrivals/departures, filter-header batches; scenario histories from a separate PRNG stream: (15%) two checkpoints closer together than one headers message with a valid branch leaving the main chain right after the first one, ONE message from the sync peer through both checkpoint heights while the tip is below the first; (-prop C19, 45%) main chain synced, filter headers committed in batches of >= 3 up to the tip, then a longer valid branch forking >= 2 blocks below the tip, then batches on the new branch; histories with restarts from a third PRNG stream (30%): a restart builds a NEW blockManager (newBlockManager through the verif hook) over the SAME stores, re-installs the notification plumbing and forgets all peers, which have to connect again; (12%) scripted: main chain synced under no-retargeting, filter headers committed, restart, then the new sync peer reveals an equal-work and a lighter branch forking >= 2 blocks below the stored tip (below the whole in-memory window: refused) and a heavier one (adopted); (18%) a restart right before a peer reveals a fork below the stored tip, or at a random point; scenario histories from a fourth PRNG stream: (10%) checkpoint fork under no-retargeting: the client follows a side branch whose tip is exactly ONE BELOW a checkpoint when the heavier main chain through the checkpoint is revealed (handed over by peer departure, restart, or a second peer), or its tip is exactly ON the checkpoint when a heavier branch forking below it is revealed (refused), then a heavier branch forking exactly AT the reached checkpoint (adopted); (10%) flip-flop on one running store: A synced, top of A sent again, heavier B adopted, then A extended by 2-3 headers comes back (adopted), from the same or another peer; (8%) two checkpoints closer together than one message, the client on a side branch below the first: ONE competing message from the fork point through both checkpoint heights that matches the first and contradicts the second (invalid: chain unchanged), then the control matching both; in flip-flop histories and the random stream also messages whose first header (stored, or a valid child of the stored tip) is not the parent of the second while the rest is linked; (15%) a checkpoint above the tip and a single-rule-invalid header (time-old / bits with a valid proof of work for the wrong bits / version / time-new / pow) in EXTENSION position below it, alone or as the suffix of a batch with a valid prefix; (10%) retargeting at a difficulty above the minimum with one period far shorter than timespan/4 and one far longer than timespan*4: at both retarget heights the header computed WITHOUT the clamp (refused, in extension and in reorg position) and the clamped one (accepted); in flip-flop and restart-fork histories also a reorganising message whose linked part only ties with the headers it would displace and whose LAST header does not build on the one before it; (8%) the batch reaching a checkpoint is lost to a failing BlockHeaders.WriteHeaders, then a branch connecting to the stored tip with a different header at the checkpoint height; (15%) the k-th WriteHeaders call (k = 1, 2) of random headers messages fails (a wrapper around the block header store; operation OHeadersF); a restart also closes and re-opens both header stores; with -prop C19 every operation runs against an unbuffered notification channel and NotificationsSinceHeight is probed while the handler is blocked on event k and after it returned (histogram backlog_probes*), also with the n-th FetchHeaderByHeight of the request made to fail through a wrapper of the block header store (backlog_requests_with_read_fault); non-trivial = the history contains a rollback/reorganisation (disconnect events) and committed filter headers (connect events); distinct = distinct op-kind signature"
 	for i := 0; i < n && i < 2; i++ {
 		rep.Samples = append(rep.Samples, hs[i])
 	}
